@@ -471,7 +471,11 @@ pub fn token(rng: &mut Rng, ctx: &Ctx, kind: usize) -> String {
             7 => format!("\x1b{}{}", rng.pick(&[" ", "#", "(", ")", "*", "+", "%", "$", " #", "#(", "( ", "!"]), rng.pick(&["8", "0", "B", "A", "F", "G", "@", "~", "3", "\u{e9}"])),
             8 => {
                 // params with huge values / leading zeros / colon forms on non-SGR
-                format!("{}{}{}", csi(rng), rng.pick(&["00001", "99999", "1:2", "1:2:3:4:5:6:7:8", "::", ";;", "123456789012"]), rng.pick(&['A', 'H', 'X', 'm', 'r', 'b']))
+                let v = *rng.pick(&["00001", "99999", "1:2", "1:2:3:4:5:6:7:8", "::", ";;", "123456789012"]);
+                let f = *rng.pick(&['A', 'H', 'X', 'm', 'r', 'b']);
+                // a huge REP with auto-wrap on scrolls tens of thousands of rows: quadratic in the list model
+                let pre = if f == 'b' && (v == "99999" || v == "123456789012") { "\x1b[?7l" } else { "" };
+                format!("{}{}{}{}", pre, csi(rng), v, f)
             }
             _ => format!("{}8;{};{}t", csi(rng), param(rng, rows), param(rng, cols)),
         },
